@@ -1,39 +1,75 @@
-(* The request port reacts to EVERY datagram as the specification says and never
-   reaches the catch-all of TftpServer._run. *)
+(* The request port reacts to EVERY datagram as the specification says; no exception caused by
+   the bytes of a datagram reaches the catch-all of TftpServer._run; a reply that cannot be sent
+   (OSError from sendto) is attempted once, logged, and the serve loop goes on. *)
 From Coq Require Import String.
 From Coq Require Import List NArith ZArith Bool Lia Arith.
 From VF Require Import Base.Sx Tftp.Codec Tftp.NegSpec Tftp.CodecProofs Tftp.Transfer Tftp.RequestPort.
 Import ListNotations.
 Open Scope N_scope.
 
-Lemma handler_loop_spec fn m o : m <> Mail -> forall hs i,
-  handler_loop hs i fn m o =
-  Ok (match first_accepting hs i fn with Some j => [AStart fn m o j] | None => [ASendError 1] end).
+(* ---------- the constructor of _TftpReadRequest cannot raise on option values ---------- *)
+Lemma regexp_then_int s : regexp_positive_int s = true -> py_int s = Ok (digits_value s).
 Proof.
-  intros Hm. induction hs as [|h r IH]; intros i; cbn [handler_loop first_accepting]; [reflexivity|].
-  destruct (can_handle h fn); [|apply IH].
-  destruct m; try reflexivity. congruence.
+  destruct s as [|c r]; [discriminate|]. cbn [regexp_positive_int py_int forallb].
+  intros H. apply andb_true_iff in H as [H1 H2]. apply andb_true_iff in H1 as [A B].
+  unfold is_digit at 1. rewrite B, H2. apply N.leb_le in A.
+  destruct (N.leb_spec 48 c); [reflexivity|lia].
 Qed.
 
-(* the code, exception by exception, computes the specified reaction: no exception escapes *)
-Theorem process_request_spec hs d : process_request hs d = Ok (port_spec hs d).
+Lemma ctor_option_ok o name : ctor_option o name = Ok tt.
+Proof.
+  unfold ctor_option. destruct (dict_get (lower_keys o) name) as [s|]; [|reflexivity].
+  destruct (regexp_positive_int s) eqn:E; [|reflexivity]. now rewrite (regexp_then_int s E).
+Qed.
+
+Lemma start_transfer_ok fn m o i : m <> Mail -> start_transfer fn m o i = Ok [AStart fn m o i].
+Proof. intros Hm. unfold start_transfer. rewrite !ctor_option_ok. destruct m; try reflexivity. congruence. Qed.
+
+(* int() is only reached for strings the full-match regular expression accepts: a value that merely
+   starts like a number ("1024x") is not converted; with a prefix match it would be and int() raises *)
+Example prefix_match_would_raise :
+  regexp_positive_int (lit "1024x") = false /\ py_int (lit "1024x") = Exc ValueError [].
+Proof. split; reflexivity. Qed.
+
+(* ---------- the port ---------- *)
+(* performing the specified reaction: a reply to an address that cannot be sent to raises OSError
+   after the attempt *)
+Definition deliver (sendable : bool) (acts : list action) : res (list action) :=
+  if sendable || negb (existsb is_send acts) then Ok acts else Exc OSError acts.
+
+Lemma send_reply_deliver sendable c : send_reply sendable c = deliver sendable [ASendError c].
+Proof. destruct sendable; reflexivity. Qed.
+
+Lemma handler_loop_spec sendable fn m o : m <> Mail -> forall hs i,
+  handler_loop sendable hs i fn m o =
+  deliver sendable (match first_accepting hs i fn with Some j => [AStart fn m o j] | None => [ASendError 1] end).
+Proof.
+  intros Hm. induction hs as [|h r IH]; intros i; cbn [handler_loop first_accepting].
+  - apply send_reply_deliver.
+  - destruct (can_handle h fn); [|apply IH]. rewrite start_transfer_ok by exact Hm.
+    unfold deliver. cbn. now rewrite orb_true_r.
+Qed.
+
+(* the code, exception by exception, performs the specified reaction; the only exception that can
+   escape is the OSError of a reply that cannot be sent *)
+Theorem process_request_spec sendable hs d : process_request sendable hs d = deliver sendable (port_spec hs d).
 Proof.
   unfold process_request, port_spec.
-  destruct d as [|hi [|lo r]]; try reflexivity.
+  destruct d as [|hi [|lo r]]; try (unfold deliver; cbn; now rewrite orb_true_r).
   cbn [List.length Nat.ltb Nat.leb unpack_u16 bind].
   set (op := u16 hi lo). unfold opcode_of.
   destruct (op =? 1) eqn:E1.
   { unfold process_read_request, decode_read_request.
-    destruct (decode_rrq (hi :: lo :: r)) as [[[fn m] o]|]; [|reflexivity].
-    destruct m; try reflexivity; apply handler_loop_spec; discriminate. }
-  destruct (op =? 2) eqn:E2; [reflexivity|].
+    destruct (decode_rrq (hi :: lo :: r)) as [[[fn m] o]|]; [|apply send_reply_deliver].
+    destruct m; try apply send_reply_deliver; apply handler_loop_spec; discriminate. }
+  destruct (op =? 2) eqn:E2; [apply send_reply_deliver|].
   apply N.eqb_neq in E1, E2.
-  destruct (op =? 3) eqn:E3; [apply N.eqb_eq in E3; rewrite E3; reflexivity|].
-  destruct (op =? 4) eqn:E4; [apply N.eqb_eq in E4; rewrite E4; reflexivity|].
-  destruct (op =? 5) eqn:E5; [apply N.eqb_eq in E5; rewrite E5; reflexivity|].
-  destruct (op =? 6) eqn:E6; [apply N.eqb_eq in E6; rewrite E6; reflexivity|].
+  destruct (op =? 3) eqn:E3; [apply N.eqb_eq in E3; rewrite E3; apply send_reply_deliver|].
+  destruct (op =? 4) eqn:E4; [apply N.eqb_eq in E4; rewrite E4; apply send_reply_deliver|].
+  destruct (op =? 5) eqn:E5; [apply N.eqb_eq in E5; rewrite E5; apply send_reply_deliver|].
+  destruct (op =? 6) eqn:E6; [apply N.eqb_eq in E6; rewrite E6; apply send_reply_deliver|].
   apply N.eqb_neq in E3, E4, E5, E6.
-  destruct ((3 <=? op) && (op <=? 6)) eqn:E; [|reflexivity].
+  destruct ((3 <=? op) && (op <=? 6)) eqn:E; [|unfold deliver; cbn; now rewrite orb_true_r].
   apply andb_true_iff in E as [A B]. apply N.leb_le in A, B. lia.
 Qed.
 
@@ -56,34 +92,62 @@ Proof.
     destruct ((3 <=? u16 hi lo) && (u16 hi lo <=? 6)); constructor; auto.
 Qed.
 
-(* for EVERY datagram and every handler list: nothing, exactly one ERROR with code 1, 2 or 4, or one
-   transfer start whose arguments are the decoding of the datagram; the catch-all is not reached *)
+Lemma serve_one_sendable hs d : serve_one true hs d = port_spec hs d.
+Proof. unfold serve_one. rewrite process_request_spec. reflexivity. Qed.
+
+(* for EVERY datagram from a requester that can be replied to, and every handler list: nothing,
+   exactly one ERROR with code 1, 2 or 4, or one transfer start whose arguments are the decoding of
+   the datagram; the catch-all is not reached *)
 Theorem request_port_total hs d :
-  exists acts, process_request hs d = Ok acts /\ serve_one hs d = acts /\ reaction_ok hs d acts.
+  exists acts, process_request true hs d = Ok acts /\ serve_one true hs d = acts /\ reaction_ok hs d acts.
 Proof.
-  exists (port_spec hs d). split; [apply process_request_spec|]. split; [|apply port_spec_ok].
-  unfold serve_one. now rewrite process_request_spec.
+  exists (port_spec hs d). split; [apply process_request_spec|]. split; [apply serve_one_sendable|apply port_spec_ok].
 Qed.
 
-Corollary request_port_no_internal_error hs d : ~ In ALogExc (serve_one hs d).
+Corollary request_port_no_internal_error hs d : ~ In ALogExc (serve_one true hs d).
 Proof.
   destruct (request_port_total hs d) as [acts [_ [-> H]]].
   inversion H; cbn; intuition discriminate.
 Qed.
 
+(* a requester that cannot be replied to (sendto raises OSError): the same reaction is attempted -
+   at most one sendto call -, the exception is logged iff a reply was due, nothing else happens;
+   a transfer start or a silently ignored datagram is not affected *)
+Theorem request_port_unsendable hs d :
+  serve_one false hs d = port_spec hs d ++ (if existsb is_send (port_spec hs d) then [ALogExc] else []) /\
+  reaction_ok hs d (port_spec hs d).
+Proof.
+  split; [|apply port_spec_ok]. unfold serve_one. rewrite process_request_spec. unfold deliver. cbn [orb].
+  destruct (existsb is_send (port_spec hs d)); cbn [negb]; [reflexivity|now rewrite List.app_nil_r].
+Qed.
+
+(* the serve loop handles every datagram that arrives, whatever came before it *)
+Theorem run_loop_total hs reqs :
+  run_loop false hs reqs = map (fun r => serve_one (fst r) hs (firstn MAX_REQUEST_PACKET_SIZE (snd r))) reqs.
+Proof.
+  induction reqs as [|[s d] r IH]; [reflexivity|]. cbn [run_loop map fst snd]. unfold serve_one.
+  destruct (process_request s hs (firstn MAX_REQUEST_PACKET_SIZE d)) as [a|e done]; [now rewrite IH|].
+  destruct e; now rewrite IH.
+Qed.
+
+(* a loop that leaves on an OSError stops serving after one reply that cannot be sent *)
+Theorem run_loop_break_refuted :
+  exists hs reqs, (length (run_loop true hs reqs) < length reqs)%nat /\ length (run_loop false hs reqs) = length reqs.
+Proof. exists [HConst true], [(false, [0; 2]); (true, [0; 2])]. split; cbn; lia. Qed.
+
 (* which code answers what *)
 Theorem request_port_codes hs d :
-  ((length d < 2)%nat -> serve_one hs d = []) /\
+  ((length d < 2)%nat -> serve_one true hs d = []) /\
   (forall hi lo r, d = hi :: lo :: r ->
-     (u16 hi lo = 2 -> serve_one hs d = [ASendError 2]) /\
-     (3 <= u16 hi lo <= 6 -> serve_one hs d = [ASendError 4]) /\
-     (u16 hi lo = 0 \/ 7 <= u16 hi lo -> serve_one hs d = []) /\
-     (u16 hi lo = 1 -> decode_rrq d = None -> serve_one hs d = [ASendError 4]) /\
-     (u16 hi lo = 1 -> forall fn o, decode_rrq d = Some (fn, Mail, o) -> serve_one hs d = [ASendError 4]) /\
+     (u16 hi lo = 2 -> serve_one true hs d = [ASendError 2]) /\
+     (3 <= u16 hi lo <= 6 -> serve_one true hs d = [ASendError 4]) /\
+     (u16 hi lo = 0 \/ 7 <= u16 hi lo -> serve_one true hs d = []) /\
+     (u16 hi lo = 1 -> decode_rrq d = None -> serve_one true hs d = [ASendError 4]) /\
+     (u16 hi lo = 1 -> forall fn o, decode_rrq d = Some (fn, Mail, o) -> serve_one true hs d = [ASendError 4]) /\
      (u16 hi lo = 1 -> forall fn m o, decode_rrq d = Some (fn, m, o) -> m <> Mail ->
-        first_accepting hs O fn = None -> serve_one hs d = [ASendError 1])).
+        first_accepting hs O fn = None -> serve_one true hs d = [ASendError 1])).
 Proof.
-  unfold serve_one. rewrite process_request_spec. split.
+  rewrite serve_one_sendable. split.
   - destruct d as [|hi [|lo r]]; cbn; intros; try reflexivity; lia.
   - intros hi lo r ->. unfold port_spec. repeat split.
     + intros ->. reflexivity.
@@ -99,49 +163,67 @@ Proof.
     + intros -> fn m o -> Hm ->. destruct m; try reflexivity. congruence.
 Qed.
 
-(* a transfer is started exactly with the RFC 1350/2347 decoding of the request *)
-Theorem request_decoding_is_rfc hs fn md m opts i :
+(* a transfer is started exactly with the RFC 1350/2347 decoding of the request, whatever the
+   option values are (unusable values are left to the negotiation, which ignores them) *)
+Theorem request_decoding_is_rfc sendable hs fn md m opts i :
   clean fn -> clean md -> mode_of_str md = Some m -> m <> Mail ->
   Forall (fun p => clean (fst p) /\ clean (snd p)) opts ->
   first_accepting hs O fn = Some i ->
-  serve_one hs (encode_rrq fn md opts) = [AStart fn m (dict_of opts) i].
+  serve_one sendable hs (encode_rrq fn md opts) = [AStart fn m (dict_of opts) i].
 Proof.
   intros Hfn Hmd Hm Hmail Ho Hi. unfold serve_one. rewrite process_request_spec.
   pose proof (rrq_roundtrip fn md m opts Hfn Hmd Hm Ho) as Hd.
   unfold port_spec. unfold encode_rrq in *. change (u16 0 1 =? 1) with true. cbv iota.
-  rewrite Hd, Hi. destruct m; try reflexivity. congruence.
+  rewrite Hd, Hi. unfold deliver. destruct m; try congruence; cbn; now rewrite orb_true_r.
 Qed.
 
 (* conversely a transfer start means that the datagram had the RFC shape *)
-Theorem start_only_for_rfc_shape hs d f m o i :
-  In (AStart f m o i) (serve_one hs d) ->
+Theorem start_only_for_rfc_shape sendable hs d f m o i :
+  In (AStart f m o i) (serve_one sendable hs d) ->
   exists fn md opts,
     d = encode_rrq fn md opts /\ nul_free fn /\ nul_free md /\ pairs_nul_free opts /\
     f = ascii_ignore fn /\ mode_of_str (ascii_ignore md) = Some m /\ m <> Mail /\
     o = dict_of (map ascii_pair opts) /\ first_accepting hs O f = Some i.
 Proof.
-  destruct (request_port_total hs d) as [acts [_ [-> H]]].
-  inversion H as [|c Hc|fn m' o' i' Hd Hm Hi]; subst; cbn; intros HIn;
-    [destruct HIn|destruct HIn as [E|[]]; discriminate|destruct HIn as [E|[]]].
-  injection E as -> -> -> ->.
-  destruct (rrq_decode_shape _ _ _ _ Hd) as [fn0 [md0 [opts0 [A [B [C [D [E [F G]]]]]]]]].
+  intros HIn.
+  assert (HIn' : In (AStart f m o i) (port_spec hs d)).
+  { destruct sendable; [now rewrite serve_one_sendable in HIn|].
+    rewrite (proj1 (request_port_unsendable hs d)) in HIn. apply in_app_or in HIn as [H|H]; [exact H|].
+    destruct (existsb is_send (port_spec hs d)); cbn in H; intuition discriminate. }
+  pose proof (port_spec_ok hs d) as H.
+  inversion H as [E|c Hc E|fn m' o' i' Hd Hm Hi E]; rewrite <- E in HIn'; cbn in HIn';
+    [destruct HIn'|destruct HIn' as [E'|[]]; discriminate|destruct HIn' as [E'|[]]].
+  injection E' as -> -> -> ->.
+  destruct (rrq_decode_shape _ _ _ _ Hd) as [fn0 [md0 [opts0 [A [B [C [D [E2 [F G]]]]]]]]].
   exists fn0, md0, opts0. repeat split; auto.
 Qed.
 
-(* the executable checker accepts the model *)
+(* ---------- the executable checker and the model ---------- *)
 Lemma opts_eqb_refl o : opts_eqb o o = true.
 Proof. induction o as [|[k x] o IH]; cbn [opts_eqb]; [reflexivity|]. now rewrite !str_eqb_refl, IH. Qed.
 Lemma actions_eqb_refl a : actions_eqb a a = true.
 Proof.
   induction a as [|x a IH]; cbn [actions_eqb]; [reflexivity|]. rewrite IH, andb_true_r.
-  destruct x; cbn [action_eqb]; [apply N.eqb_refl| |reflexivity|apply str_eqb_refl].
+  destruct x; cbn [action_eqb]; [apply N.eqb_refl| |reflexivity|apply str_eqb_refl|reflexivity].
   now rewrite str_eqb_refl, N.eqb_refl, opts_eqb_refl, Nat.eqb_refl.
 Qed.
 
-Theorem port_holds_model hs d : port_holds hs d (serve_one hs d) = [].
+(* the checker accepts the model when the reply can be sent ... *)
+Theorem port_holds_model hs d : port_holds true hs d (serve_one true hs d) = [].
 Proof.
-  destruct (request_port_total hs d) as [acts [Hp [Hs H]]].
-  assert (E : acts = port_spec hs d) by (rewrite process_request_spec in Hp; congruence).
-  unfold port_holds. rewrite Hs, E, actions_eqb_refl. rewrite <- E.
-  inversion H; reflexivity.
+  rewrite serve_one_sendable. pose proof (port_spec_ok hs d) as H. unfold port_holds. cbv zeta.
+  inversion H as [E|c Hc E|fn m o i Hd Hm Hi E]; cbn [existsb is_log is_dead orb filter negb andb app List.length Nat.leb];
+    rewrite actions_eqb_refl; reflexivity.
+Qed.
+
+(* ... and reports exactly the clause port_reply_unsendable_logged, and only when a reply was due,
+   when it cannot (the code logs the OSError with a traceback: finding D22) *)
+Theorem port_holds_unsendable hs d :
+  port_holds false hs d (serve_one false hs d) =
+  if existsb is_send (port_spec hs d) then ["C09:port_reply_unsendable_logged"%string] else [].
+Proof.
+  rewrite (proj1 (request_port_unsendable hs d)). pose proof (port_spec_ok hs d) as H. unfold port_holds. cbv zeta.
+  inversion H as [E|c Hc E|fn m o i Hd Hm Hi E];
+    cbn [existsb is_log is_send is_dead orb filter negb andb app List.length Nat.leb];
+    rewrite ?actions_eqb_refl; cbn [andb app]; rewrite ?actions_eqb_refl; reflexivity.
 Qed.
